@@ -230,6 +230,41 @@ def build() -> Check:
     ck.floor("timestamp_paths", len(want), 4)
     ck.ob("R4.json-writer-converts-all-timestamps", fn_construct(tj), wp == want, f"to_json_dict converts {sorted(wp)}, datetime fields are at {sorted(want)}")
     ck.ob("R4.json-reader-converts-all-timestamps", fn_construct(fj), rp == want, f"from_json_dict converts {sorted(rp)}, datetime fields are at {sorted(want)}")
+    # ... each of them whenever IT is present: the test around a conversion mentions the keys on that timestamp's own path and no other key. The four
+    # timestamps are independent optionals on the other side of the codec (r8_C20: EndTimestamp decoded only inside the StartTimestamp branch - an operation
+    # with an end and no start comes back with an int where the datetime was)
+    for fnx, conv in ((fj, "from_unix_millis"), (tj, "to_unix_millis")):
+        par_ = {}
+        for n_ in ast.walk(fnx.node):
+            for c_ in ast.iter_child_nodes(n_):
+                par_[id(c_)] = n_
+        n_conv = 0
+        foreign = []
+        for st in ast.walk(fnx.node):
+            if isinstance(st, ast.Assign) and isinstance(st.targets[0], ast.Subscript) and isinstance(st.value, ast.Call) and isinstance(st.value.func, ast.Attribute) \
+                    and st.value.func.attr == conv:
+                n_conv += 1
+                own = set()
+                base = st.targets[0]
+                while isinstance(base, ast.Subscript):
+                    if isinstance(base.slice, ast.Constant):
+                        own.add(base.slice.value)
+                    base = base.value
+                if isinstance(base, ast.Name):
+                    for n_ in ast.walk(fnx.node):
+                        if isinstance(n_, ast.NamedExpr) and n_.target.id == base.id:
+                            own |= {c.value for c in ast.walk(n_.value) if isinstance(c, ast.Constant) and isinstance(c.value, str)}
+                cur = par_.get(id(st))
+                seen_keys = set()
+                while cur is not None:
+                    if isinstance(cur, (ast.If, ast.IfExp, ast.While)) and any(st is x for b in cur.body for x in ast.walk(b)):
+                        seen_keys |= {c.value for c in ast.walk(cur.test) if isinstance(c, ast.Constant) and isinstance(c.value, str)}
+                    cur = par_.get(id(cur))
+                if seen_keys - own:
+                    foreign.append(f"line {st.lineno}: the conversion of {sorted(own)} happens only when {sorted(seen_keys - own)} is present as well")
+        ck.floor(f"timestamp_conversions_in_{fnx.name}", n_conv, 4)
+        ck.ob("R4.conversion-depends-on-its-own-presence-only", fn_construct(fnx), not foreign,
+              "; ".join(foreign[:2]) + ": the timestamps are independent optionals - the one whose conversion is skipped crosses the codec as the wrong type" if foreign else f"{n_conv} conversions")
     for cname, mod in (("InitialExecutionState", "execution"), ("DurableExecutionInvocationInput", "execution")):
         c = prog.cls(mod, cname)
         for m, inner in (("to_json_dict", "to_json_dict"), ("from_json_dict", "from_json_dict")):
